@@ -54,13 +54,23 @@ def _case(draw: Any, args: dict) -> dict:
         cand = [c for c in classes if not (c["mod"] == 0 and mod == 1)]  # module 1 never imports module 0 (no cycle)
         bases: list[str] = []
         for c in cand:
-            if len(bases) < 3 and draw(st.sampled_from([True, True, False] if c["private"] else [True, False, False, False])):
+            if len(bases) < 3 and draw(st.sampled_from([True, True, False] if c["private"] else [True, False, False])):
                 bases.append(key_of(c))
         if draw(st.booleans()):
             bases.reverse()
         methods = draw(st.lists(st.sampled_from(METHODS), min_size=1, max_size=4, unique=True))
         generic = (not private) and draw(st.integers(0, 9 if args.get("tier") != "thorough" else 3)) == 0
         classes.append({"name": name, "private": private, "bases": bases, "methods": methods, "mod": mod, "generic": generic})
+    # a public class deriving several public classes in an order that is not the alphabetical one (and a private one)
+    pubs = [c for c in classes if not c["private"] and c["mod"] == 0 and not c.get("generic")]
+    if len(pubs) >= 2 and draw(st.integers(0, 2)) == 0:
+        k = draw(st.integers(2, min(3, len(pubs))))
+        chosen = draw(st.permutations(pubs))[:k]
+        bases = [key_of(c) for c in sorted(chosen, key=lambda c: c["name"], reverse=True)]
+        privs = [c for c in classes if c["private"] and c["mod"] == 0]
+        if privs and draw(st.booleans()):
+            bases.insert(draw(st.integers(0, len(bases))), key_of(draw(st.sampled_from(privs))))
+        classes.append({"name": f"Pub{len(classes) + 20}", "private": False, "bases": bases, "methods": draw(st.lists(st.sampled_from(METHODS), min_size=1, max_size=2, unique=True)), "mod": 0, "generic": False})
     for c in classes:  # (the explicit diamond above is written with plain names: normalise to keys)
         c["bases"] = [b if ":" in b else f"0:{b}" for b in c["bases"]]
     return {"pkgname": pkgname, "classes": classes, "options": {"nc": False}}
